@@ -336,7 +336,7 @@ fn cmd_check(prop: &str, tier: Tier, part: bool) -> i32 {
             "scenario": s.name, "runs": b.runs, "evaluations": b.evals,
             "distinct_nontrivial": b.distinct_nontrivial, "wall_s": b.wall_s,
             "distinct_event_log_hashes": b.distinct_loghashes, "violating_runs": b.found.len(),
-            "profile": profile(),
+            "profile": profile(), "slowest_run": {"run_index": b.slowest.0, "ms": b.slowest.1 as u64},
         }));
         // triage what was found: known findings vs new violations
         let mut seen_sig: Vec<String> = Vec::new();
